@@ -157,6 +157,13 @@ class Reactor(HubListener):
     def take(self, kinds):
         if self.w.fired is not None:        # at most one reaction per top-level step: one mechanism per signature
             return None
+        if getattr(self.w, "_cur", {}).get("op") == "delay":
+            # the message is being delivered by the flush of a delay block: other messages of the block are still queued, so a
+            # handler that changes the collection now acts on objects whose own announcement is still pending - the same
+            # family as acting on the subject of the message in flight (outside C06's quantifier, see notes/C06.md)
+            if any(k in kinds for k in self.pending):
+                self.w.ctx.count("reaction_not_fired_during_delay_block_flush")
+            return None
         for k in self.pending:
             if k in kinds:
                 self.pending.remove(k)
@@ -617,8 +624,8 @@ class World:
         finally:
             if not nested:
                 _IC["armed"] = False
-        if not nested and self.reactor is not None and op != "react":
-            self.reactor.pending = []       # a pending reaction gets exactly one top-level step to fire in
+                if self.reactor is not None and op != "react":
+                    self.reactor.pending = []       # a pending reaction gets exactly one top-level step to fire in
         if not nested and self.fired is not None:
             # a handler called back into the collection while this step was running: the order in which the membership
             # model was updated no longer mirrors glue's; membership is bookkeeping (the invariant is evaluated on the real
